@@ -108,6 +108,8 @@ type pathCtx struct {
 	allocLimit   int64
 	tags         []string
 	pcTerms      []*smt.Term
+	dirty        bool // solver state does not mirror pcTerms (after a one-shot query)
+	incTimeoutMs int
 }
 
 func newPathCtx(s *smt.Solver, prefix []Decision) *pathCtx {
@@ -115,7 +117,7 @@ func newPathCtx(s *smt.Solver, prefix []Decision) *pathCtx {
 	return &pathCtx{
 		b: smt.NewBuilder(), s: s, prefix: prefix,
 		varCount: map[string]int{}, reached: map[string]bool{}, asserted: map[string]bool{},
-		maxDecisions: 4000, maxConc: 300,
+		maxDecisions: 4000, maxConc: 300, incTimeoutMs: 4000,
 	}
 }
 
@@ -134,12 +136,36 @@ func (c *pathCtx) freshVar(name string, w int) *smt.Term {
 	return c.b.Var(fmt.Sprintf("%s#%d", name, n), w)
 }
 
+// sync makes the solver's assertion stack mirror the path condition again.
+func (c *pathCtx) sync() {
+	if !c.dirty {
+		return
+	}
+	c.s.Reset()
+	for _, t := range c.pcTerms {
+		c.s.Assert(t)
+	}
+	c.dirty = false
+}
+
+// oneShot decides pc ∧ t without push/pop (z3 preprocessing tactics apply).
+func (c *pathCtx) oneShot(t *smt.Term) (smt.Result, map[string]uint64) {
+	if t.IsFalse() {
+		return smt.Unsat, nil
+	}
+	r, m := c.s.CheckOneShot(c.pcTerms, t, c.b.Vars)
+	c.dirty = true
+	return r, m
+}
+
 // addPC asserts t into the path condition.
 func (c *pathCtx) addPC(t *smt.Term) {
 	if t.IsTrue() {
 		return
 	}
-	c.s.Assert(t)
+	if !c.dirty {
+		c.s.Assert(t)
+	}
 	c.pcTerms = append(c.pcTerms, t)
 	if c.modelValid {
 		if v, ok := smt.Eval(t, c.model, nil); !ok || v != 1 {
@@ -153,6 +179,8 @@ func (c *pathCtx) feasible(t *smt.Term) (smt.Result, map[string]uint64) {
 	if t.IsFalse() {
 		return smt.Unsat, nil
 	}
+	c.sync()
+	c.s.SetTimeout(c.incTimeoutMs)
 	c.s.Push()
 	c.s.Assert(t)
 	r := c.s.Check()
@@ -161,6 +189,11 @@ func (c *pathCtx) feasible(t *smt.Term) (smt.Result, map[string]uint64) {
 		m = c.s.Model(c.b.Vars)
 	}
 	c.s.Pop()
+	c.s.SetTimeout(c.s.TimeoutMs)
+	if r == smt.Unknown {
+		// retry from a fresh state with the full timeout
+		return c.oneShot(t)
+	}
 	return r, m
 }
 
@@ -342,6 +375,7 @@ func (c *pathCtx) concretize(t *smt.Term, tag string) uint64 {
 	if !got {
 		c.nConcTmp++
 		tmp := c.b.Var(fmt.Sprintf("!conc%d", c.nConcTmp), t.W)
+		c.sync()
 		c.s.Push()
 		c.s.Assert(c.b.Eq(tmp, t))
 		r := c.s.Check()
@@ -461,6 +495,7 @@ func (c *pathCtx) pcModel() map[string]uint64 {
 	if c.modelValid {
 		return c.model
 	}
+	c.sync()
 	r := c.s.Check()
 	if r == smt.Sat {
 		c.model, c.modelValid = c.s.Model(c.b.Vars), true
